@@ -64,6 +64,7 @@ type replayDoc struct {
 	Sched    []string        `json:"schedule,omitempty"`
 	Multi    bool            `json:"multi,omitempty"`
 	EnvChoices int           `json:"env_choices,omitempty"`
+	EngineOnly bool          `json:"engine_only,omitempty"`
 }
 
 func cmdCheck(args []string) int {
@@ -91,6 +92,11 @@ func cmdCheck(args []string) int {
 		writeEvidence(id, tier, seed, spec, nil, nil, 0, 0, time.Since(start).Seconds(), []string{"load failed: " + err.Error()}, 0)
 		return 2
 	}
+	return runCheck(l, id, tier, seed, spec, start, true)
+}
+
+// runCheck runs the jobs of one property on a loaded program.
+func runCheck(l *Loaded, id, tier string, seed int64, spec *Spec, start time.Time, evidence bool) int {
 	jobs := spec.Jobs(tier)
 	for _, j := range jobs {
 		j.Prop = id
@@ -178,7 +184,7 @@ func cmdCheck(args []string) int {
 		}
 		seenViol[key] = true
 		j := violJobs[i]
-		doc := replayDoc{Property: id, Harness: j.Func, Pkg: j.Pkg, Args: j.Args, Inputs: v.Inputs, Label: v.Label, Facets: v.Facets, Msg: v.Msg, Sched: v.Sched, Multi: len(v.Sched) > 2, EnvChoices: v.EnvChoices}
+		doc := replayDoc{Property: id, Harness: j.Func, Pkg: j.Pkg, Args: j.Args, Inputs: v.Inputs, Label: v.Label, Facets: v.Facets, Msg: v.Msg, Sched: v.Sched, Multi: len(v.Sched) > 2 || v.EngineOnly || v.Label == "deadlock" || v.Label == "hang" || v.Label == "livelock" || v.Label == "no-progress-loop", EnvChoices: v.EnvChoices, EngineOnly: v.EngineOnly}
 		path := fmt.Sprintf("%s/replay/%s-%d.json", verifDir(), id, nviol)
 		data, _ := json.MarshalIndent(doc, "", " ")
 		os.WriteFile(path, data, 0o644)
@@ -195,7 +201,7 @@ func cmdCheck(args []string) int {
 		wn := 0
 		for _, r := range results {
 			for _, w := range r.Witness {
-				if w.Multi || wn >= spec.maxWitness(tier) {
+				if w.Multi || w.EngineOnly || wn >= spec.maxWitness(tier) {
 					continue
 				}
 				doc := replayDoc{Property: id, Harness: r.Job.Func, Pkg: r.Job.Pkg, Args: r.Job.Args, Inputs: w.Inputs, Label: ""}
@@ -267,7 +273,9 @@ func cmdCheck(args []string) int {
 	if exit == 1 {
 		nv = nviol
 	}
-	writeEvidence(id, tier, seed, spec, l, results, validated, nv, wall, incon, l.LoadTime.Seconds())
+	if evidence {
+		writeEvidence(id, tier, seed, spec, l, results, validated, nv, wall, incon, l.LoadTime.Seconds())
+	}
 	_ = nativeNote
 	if exit == 1 {
 		return 1
@@ -296,6 +304,14 @@ func nativeReplay(l *Loaded, files []string, pkgs []string) (map[string]string, 
 	defer os.RemoveAll(tmp)
 	replace := map[string]string{}
 	for repoPath := range l.Overlay {
+		if content, ok := l.Extra[repoPath]; ok {
+			f := filepath.Join(tmp, "extra_"+strings.ReplaceAll(strings.TrimPrefix(repoPath, "/"), "/", "_"))
+			if err := os.WriteFile(f, content, 0o644); err != nil {
+				return nil, err
+			}
+			replace[repoPath] = f
+			continue
+		}
 		rel, _ := filepath.Rel(RepoDir, repoPath)
 		replace[repoPath] = filepath.Join(l.HarnessDir, rel)
 	}
